@@ -5,9 +5,11 @@ import (
 	"fmt"
 	"io"
 	"strings"
+	"sync/atomic"
 	"time"
 
 	"verif/fw"
+	"verif/sim"
 
 	"github.com/tsuna/gohbase/hrpc"
 )
@@ -38,7 +40,10 @@ func init() {
 			"cellblocks / in protobuf / compressed; the simulated servers cut every response at random (rows per response, " +
 			"row split into partial fragments inside and across responses, heartbeats, region end announced with the last " +
 			"row or in a later empty response, early more_results=false only when the scan is really exhausted). Result " +
-			"sequence compared with a model computed from the case alone. distinct = distinct case description; non-trivial " +
+			"sequence compared with a model computed from the case alone. Small scope, exhaustive in the thorough tier (1/8 sample in " +
+			"quick): 3 rows x 2 cells, 3 layouts, 9 range shapes, both directions, partials on/off, every chunk script of length 3 over " +
+			"{all, one row, row split in two, trailing fragment, heartbeat, complete row flagged partial} x {end announced later} x " +
+			"{early more_results=false}. distinct = distinct case description; non-trivial " +
 			"= at least one row in range or at least two regions",
 		Assumptions: []string{
 			"row keys and boundaries never contain eight consecutive 0xff (client's documented approximation for reversed scans)",
@@ -52,13 +57,128 @@ func init() {
 		},
 		Floors: func(tier string) map[string]int64 {
 			return map[string]int64{"scans": 3000, "region_hops": 300, "partial_fragments_sent": 100, "heartbeats": 20,
-				"reversed_scans": 100, "rows_returned": 2000, "multi_region_scans": 200}
+				"reversed_scans": 100, "rows_returned": 2000, "multi_region_scans": 200, "enumerated_chunkings": 4000}
 		},
 		Run: runC06,
 	})
 }
 
+// scriptedPolicy cuts the stream according to a fixed list of shapes, one per
+// response (across all region scanners of the scan); afterwards everything
+// that is left is sent at once.
+func scriptedPolicy(shapes []int, endLater, moreFalse bool) func(*sim.ScanCtx) sim.ScanChunk {
+	var n int32
+	return func(x *sim.ScanCtx) sim.ScanChunk {
+		k := int(atomic.AddInt32(&n, 1)) - 1
+		shape := 0
+		if k < len(shapes) {
+			shape = shapes[k]
+		}
+		max := x.Remaining
+		if x.Limit > 0 && x.Limit < max {
+			max = x.Limit
+		}
+		ch := sim.ScanChunk{EndRegionLater: endLater, MoreResultsFalse: moreFalse}
+		one := 1
+		if max < 1 {
+			one = max
+		}
+		switch shape {
+		case 0:
+			ch.Rows = max
+		case 1:
+			ch.Rows = one
+		case 2:
+			ch.Rows = one
+			if x.NextRowCells > 1 {
+				ch.SplitFirst = []int{1, x.NextRowCells - 1}
+			}
+		case 3:
+			if x.AllowPartials && x.NextRowCells > 1 {
+				ch.TrailingCells = 1
+			} else {
+				ch.Rows = one
+			}
+		case 4:
+			if x.Heartbeats < 2 && x.Remaining > 0 && !x.InFragment {
+				ch.Heartbeat = true
+			} else {
+				ch.Rows = one
+			}
+		case 5:
+			ch.Rows = one
+			ch.MarkLastPartial = true
+		}
+		return ch
+	}
+}
+
+// c06Enumerate runs the small-scope exhaustive part: 3 rows x 2 cells, 3
+// layouts, all range shapes in both directions, partial results on/off, every
+// chunk script of length 3 over 6 shapes x 2 x 2 flags. stride > 1 samples it.
+func c06Enumerate(c *fw.Ctx, stride int) {
+	rows := []string{"a", "b", "c"}
+	layouts := [][]string{nil, {"b"}, {"b", "c"}}
+	fwd := [][2]string{{"", ""}, {"a", "c"}, {"b", ""}, {"", "b"}, {"b", "c"}}
+	rev := [][2]string{{"c", ""}, {"c", "a"}, {"b", ""}, {"b", "a"}}
+	i := 0
+	for _, bounds := range layouts {
+		for dir := 0; dir < 2; dir++ {
+			ranges := fwd
+			if dir == 1 {
+				ranges = rev
+			}
+			for _, rg := range ranges {
+				for _, partials := range []bool{false, true} {
+					for script := 0; script < 216; script++ {
+						for flags := 0; flags < 4; flags++ {
+							i++
+							if (i/stride)%c.NBatches != c.Batch || i%stride != 0 {
+								continue
+							}
+							sc := scanCase{Seed: int64(i), Rows: rows, CellsPer: []int{2, 2, 2}, Bounds: bounds, Start: rg[0], Stop: rg[1],
+								Reversed: dir == 1, NumRows: 0, Partials: partials, Servers: 1}
+							shapes := []int{script % 6, script / 6 % 6, script / 36}
+							id := fmt.Sprintf("enum-%d", i)
+							if i%2000 == 0 {
+								c.Begin(id, sc)
+							}
+							cl, client := sc.setup(scriptedPolicy(shapes, flags&1 == 1, flags&2 == 2))
+							ctx, cancel := context.WithTimeout(context.Background(), 20*time.Second)
+							var got []*hrpc.Result
+							var err error
+							done := within(30*time.Second, func() {
+								got, err = runScanToEnd(client.Scan(sc.newScan(ctx, id)), 40)
+							})
+							cancel()
+							c.Eval(fmt.Sprintf("enum|%v|%v|%v|%v|%v|%d", bounds, rg, dir, partials, shapes, flags), true)
+							c.Count("enumerated_chunkings", 1)
+							descr := fmt.Sprintf("%s chunk-script=%v end-later=%v more-false=%v", sc.sig(), shapes, flags&1 == 1, flags&2 == 2)
+							switch {
+							case !done:
+								c.Violate(id, "scan:stuck", descr, descr)
+							case err != nil:
+								c.Violate(id, "scan:error", fmt.Sprintf("%v: %s", err, descr), descr)
+							default:
+								if f, d := compareScan(got, sc.model(), sc.Partials, false); f != "" {
+									c.Violate(id, f, d+" :: "+descr, descr)
+								}
+							}
+							within(5*time.Second, client.Close)
+							cl.Close()
+						}
+					}
+				}
+			}
+		}
+	}
+}
+
 func runC06(c *fw.Ctx) {
+	c06Enumerate(c, c.Pick(8, 1))
+	if !c.Quick() {
+		c.SetExhaustive()
+	}
 	r := c.Rand("scan")
 	n := c.Pick(4000, 96000) / c.NBatches
 	for i := 0; i < n; i++ {
